@@ -122,6 +122,7 @@ SHAPES = {
     "dict_and_set_comprehension": ("NAME = [1, 2]\nd = {k: k + 1 for k in NAME}\ns = {k for k in NAME if k}\nprint(sorted(d.items()), sorted(s), NAME)\n", ["NAME"]),
     "conditional_expression_and_chained_compare": ("NAME = 2\nr = NAME if 1 < NAME < 3 else -NAME\nprint(r)\n", ["NAME"]),
     "multi_line_class_header": ("NAME = object\nOTHER = type\nclass C(\n    NAME,\n    metaclass=OTHER,\n):\n    NAME = 3\n    OTHER = 4\nprint(C.NAME, C.OTHER, C.__mro__[1] is NAME, type(C) is OTHER)\n", ["NAME", "OTHER"]),
+    "multi_name_global": ("NAME = 0\nOTHER = 0\ndef bump():\n    global NAME, OTHER\n    NAME = NAME + 1\n    OTHER = OTHER + NAME\nbump()\nprint(NAME, OTHER)\n", ["NAME", "OTHER"]),
     "del_and_augmented": ("NAME = 1\nNAME += 2\nprint(NAME)\nOTHER = [1]\ndel OTHER[0]\nprint(OTHER)\n", ["NAME", "OTHER"]),
 }
 
